@@ -112,6 +112,11 @@ CLAIMED = {
     text='For each of the 37 shipped listings, every non-empty subset of its tables in every order (all orders up to three tables, seeded orders beyond), with rows given by name, reversed name and integer index (first / interior / last / beyond the first page), three or all columns, list and tuple forms, both letter cases, short output on and off, and every starting index in {0, middle, last}, the series returned by the real history() are compared exactly with the series read by visiting every result time through index on an independent listing object (negated for reversed connection names); the times must be the full times (or the times incl. short output, with the values at short-output times compared with an own scan of the raw text); the listing\'s index, time, step and every table must be identical before and after the call; and the call must finish within a logical budget of 64 + 4 x (lines in the file) readline calls and never read more than 1000 times in a row at end of file - a budget overrun is the witness of non-termination, wall time is never a verdict.',
     note='Trusted: stepping through index as the definition of the expected series (what the tables hold is C05), the proxy file object, the own short-output scan in vf/props/c06.py.',
     design='DESIGN.md §3 C06'),
+    'C05': dict(
+        technique='runtime reference-model monitor: own tokenizer of the raw listing text (result sets, tables, rows, keys, numeric cells with character spans) compared cell by cell with the live reader at every result time, on the shipped files and on value-perturbed copies whose expected cells are known by construction; differential comparison across every subset of skipped tables',
+        text='For all 37 shipped listings and same-width value-perturbed copies (new digits, negative, zero, three-digit exponents with and without letter, random mixes), every result time, table, row and cell the reader exposes equals the printed number (blank trailing cells zero), rows are keyed by the printed names, column names equal the header line, row-index / row-name / column-name addressing agree, and skipping any subset of tables leaves the other tables present and unchanged.',
+        note='Trusted: vf/oracle/listing_ref.py (own tokenizer; re-tokenizing every perturbed copy must give the constructed values back, 3.3M cells per quick run), Python float() on a printed number.  Domain decisions (no + signs, lettered three-digit exponents only in non-touching fields, TOUGH2-MP duplicate rows) are in INFO assumptions.',
+        design='DESIGN.md §3 C05'),
 }
 
 def main():
